@@ -20,6 +20,7 @@ import Fbr.Lemmas.PtHandles
 import Fbr.Lemmas.PtFreshTables
 import Fbr.Lemmas.PtRun
 import Fbr.Lemmas.PtFresh
+import Fbr.Lemmas.PtUniq
 
 namespace Fbr.Thm.C15
 open Fbr.PtRefs
@@ -100,9 +101,12 @@ theorem ledger_balanced (e : Env) (h : History) :
     inode objects, handles, directory-position records or descriptors than a freshly started
     (initialised) server: at most the root entry, no handle, no cookie, 2 descriptors + 1 for the
     root (its `O_PATH` descriptor, or the mount fd it references).  Any history, any fault
-    placement, `use_host_ino = false` (see C08 for `use_host_ino = true`: same statement under
-    `clobbered = false`), both `inode_file_handles` modes, any `no_open`/`no_opendir`. -/
-theorem tables_return_to_fresh (e : Env) (hk : e.useHostIno = false) (h : History)
+    placement, any `no_open`/`no_opendir`, and every numbering / handle configuration but one:
+    `use_host_ino = false` (both `inode_file_handles` modes), or `inode_file_handles = false`
+    (`NoHandles h`: no host answer carries a file handle; both `use_host_ino` modes).  The
+    remaining combination `use_host_ino ∧ inode_file_handles` is the known finding of C08
+    (`hostino_reuse_counterexample`). -/
+theorem tables_return_to_fresh (e : Env) (h : History) (hcfg : e.useHostIno = false ∨ NoHandles h)
     (hsat : (run e St.fresh h).1.lookups + 2 < U64_MAX)
     (hheld : ∀ i, i ≠ ROOT_ID → (Spec.init.run h (run e St.fresh h).2).held i = 0)
     (hhnds : (Spec.init.run h (run e St.fresh h).2).hnds = []) :
@@ -111,7 +115,7 @@ theorem tables_return_to_fresh (e : Env) (hk : e.useHostIno = false) (h : Histor
     ∧ (run e St.fresh h).1.cookies = []
     ∧ (run e St.fresh h).1.fds = 2 + (run e St.fresh h).1.data.length := by
   have hl := run_linv e h linv_fresh
-  have hg := run_good e h ⟨never_clobbers_keep e hk h, hsat⟩
+  have hg := run_good e h ⟨never_clobbers e h hcfg, hsat⟩
   have hh : (run e St.fresh h).1.handles = [] := by
     rw [run_hnds e h St.fresh Spec.init rfl]; exact hhnds
   have hdata : (run e St.fresh h).1.data = [] ∨ ∃ d, (run e St.fresh h).1.data = [(ROOT_ID, d)] := by
